@@ -2,6 +2,8 @@
    Statements only; proofs are in Proofs/CommitProofs.v. *)
 From Coq Require Import ZArith List Bool Arith.
 Require Import DS.Model.CommitBase DS.Gen.GenCommit DS.Model.Commit DS.Proofs.CommitGenProofs DS.Proofs.CommitProofs.
+Require Import DS.Model.ProcLockBase DS.Gen.GenFileLock DS.Model.ProcLock.
+Require DS.Proofs.ProcLockProofs.
 Import ListNotations.
 Open Scope Z_scope.
 
@@ -86,6 +88,90 @@ Theorem C01_conflict_retried :
   /\ (forall e last, gen_tx_on e last <> TxPropagate).
 Proof. destruct conflict_retries as [A [B C]]. repeat split; try assumption. exact every_class_finishes. Qed.
 Print Assumptions C01_conflict_retried.
+
+(* ---- "storage with real mutual exclusion", local filesystem: the layer below `lockkind = Excl`.
+   Writers are FileLock handles (one per Table handle) placed in OS processes by an ARBITRARY topology
+   `proc : hid -> pid` -- threads of one process with separate handles, one process per handle, several handles in
+   one process next to handles in other processes.  Each handle runs FileLock's program on the lock file one kernel
+   primitive per event (open; non-blocking attempt; close after a refusal; unlock; close), processes can be killed,
+   and EVERY event list is a schedule.  The kernel's ownership discipline is `gen_lock_disc`, read off the primitive
+   the source calls on every run (Gen/GenFileLock.v; flock = the lock belongs to the open file description). *)
+
+(* At most one handle believes it holds the lock -- whatever the topology. *)
+Theorem C01_lock_exclusive_any_topology : forall (proc : hid -> pid) evs h1 h2,
+  let s := lrun gen_lock_disc proc linit evs in lholds s h1 -> lholds s h2 -> h1 = h2.
+Proof. exact ProcLockProofs.gen_lock_exclusive. Qed.
+Print Assumptions C01_lock_exclusive_any_topology.
+
+(* The lock layer refines Commit.v's exclusive lock: the handle whose flag is set is exactly the kernel's owner
+   (so the fence of the commit point, which reads the flag, tells the truth), and every enabled event moves that
+   view the way `step` moves `w_lock`: a granted attempt only from a free lock, a refused one only while another
+   handle holds, the holder's unlock frees it, a process death frees it iff the holder lived there, and nothing else
+   -- no open, no close of a refused or released descriptor, in the holder's process or any other -- touches it. *)
+Theorem C01_lock_refines_excl : forall (proc : hid -> pid) evs,
+  let s := lrun gen_lock_disc proc linit evs in
+  (forall h, lholds s h <-> lock_view s = Some h)
+  /\ (forall e s', lstep gen_lock_disc proc s e = Some s' -> view_effect proc s e s').
+Proof. exact ProcLockProofs.gen_lock_refinement. Qed.
+Print Assumptions C01_lock_refines_excl.
+
+(* A holder cannot lose the lock to anything but its own unlock or the death of its own process: what the other
+   handles do -- those sharing its process included -- leaves its flag set AND its description the kernel's owner. *)
+Theorem C01_lock_not_dropped_by_others : forall (proc : hid -> pid) evs e s' h,
+  let s := lrun gen_lock_disc proc linit evs in
+  lstep gen_lock_disc proc s e = Some s' -> lholds s h -> e <> LStep h KUnlock -> e <> LKill (proc h) ->
+  lholds s' h /\ lock_view s' = Some h.
+Proof. exact ProcLockProofs.gen_lock_keeps_holder. Qed.
+Print Assumptions C01_lock_not_dropped_by_others.
+
+(* The handle program of the model is, primitive for primitive, the skeleton the translator regenerates from
+   FileLock._try_acquire_once / FileLock.release; the discipline is the description-owned one; the fence is the
+   flag; and the granted path is enabled, and ends holding, from every reachable state with a free lock. *)
+Theorem C01_lock_skeleton_regenerated :
+  gen_lock_disc = ByDescription /\ gen_fence_is_flag = true
+  /\ flat_map lactions_of attempt_granted_events = gen_attempt_granted
+  /\ flat_map lactions_of attempt_refused_events = gen_attempt_refused
+  /\ flat_map lactions_of release_events = gen_release
+  /\ (forall (proc : hid -> pid) evs h, let s := lrun gen_lock_disc proc linit evs in
+        l_h s h = HIdle -> lock_view s = None ->
+        exists s', lrun_strict gen_lock_disc proc s (map (LStep h) attempt_granted_events) 0 = inl s'
+                   /\ lholds s' h /\ lock_view s' = Some h).
+Proof. exact ProcLockProofs.gen_lock_skeleton. Qed.
+Print Assumptions C01_lock_skeleton_regenerated.
+
+(* Why the discipline and the topology matter (refutation witnesses; the harness replays their shape on the real
+   code: X holds, Y in X's process touches the lock file, Z in another process attempts).  With PROCESS-owned locks
+   (POSIX record locks: fcntl F_SETLK, lockf) the same handle program is not exclusive as soon as one process has two
+   handles: (1) the kernel grants the second handle of the process straight away; (2) even when the handles of a process
+   take turns, the second handle's unlock / close of ITS descriptor drops the PROCESS's lock while the first still
+   believes it holds, and a handle of another process is granted -- both strict (enabled) runs of the model. *)
+Definition two_procs (h : hid) : pid := if Nat.ltb h 2 then 0%nat else 1%nat.
+Example C01_process_owned_lock_not_exclusive :
+  (exists s, lrun_strict ByProcess (fun _ => 0%nat) linit
+               [LStep 0 KOpen; LStep 0 (KTry true); LStep 1 KOpen; LStep 1 (KTry true)]%nat 0 = inl s
+             /\ lholds s 0%nat /\ lholds s 1%nat)
+  /\ (exists s, lrun_strict ByProcess two_procs linit
+               [LStep 0 KOpen; LStep 0 (KTry true);
+                LStep 1 KOpen; LStep 1 (KTry true); LStep 1 KUnlock; LStep 1 KClose;
+                LStep 2 KOpen; LStep 2 (KTry true)]%nat 0 = inl s
+             /\ lholds s 0%nat /\ lholds s 2%nat /\ two_procs 0%nat <> two_procs 2%nat).
+Proof.
+  split; eexists; (split; [vm_compute; reflexivity|]); repeat split; try (eexists; vm_compute; reflexivity).
+  vm_compute. discriminate.
+Qed.
+
+(* ... while under the regenerated discipline the same two event lists are refused by the kernel at the second grant *)
+Example C01_description_owned_lock_refuses_them :
+  lrun_strict gen_lock_disc (fun _ => 0%nat) linit
+    [LStep 0 KOpen; LStep 0 (KTry true); LStep 1 KOpen; LStep 1 (KTry true)]%nat 0 = inr 3%nat
+  /\ (exists s, lrun_strict gen_lock_disc two_procs linit
+               [LStep 0 KOpen; LStep 0 (KTry true); LStep 1 KOpen; LStep 1 (KTry false); LStep 1 KCloseRefused;
+                LStep 2 KOpen; LStep 2 (KTry false); LStep 2 KCloseRefused]%nat 0 = inl s
+             /\ lock_view s = Some 0%nat /\ lholds s 0%nat).
+Proof.
+  split; [vm_compute; reflexivity|]. eexists. split; [vm_compute; reflexivity|]. split; [vm_compute; reflexivity|].
+  eexists. vm_compute. reflexivity.
+Qed.
 
 (* Non-vacuity: a concrete schedule on the exclusive-lock configuration with a FROZEN clock in which
    a metadata-only commit (actor 1) lands between actor 0's base read and its validation: actor 0
